@@ -142,7 +142,8 @@ func tableChecksC09(P *Program, tier string) []extraResult {
 		return append(res, extraResult{Name: "table/precedence-classes", Kind: "table", OK: false, Detail: err.Error()})
 	}
 	var pc struct {
-		Classes [][]string `json:"classes"`
+		Classes   [][]string `json:"classes"`
+		SameLevel []int      `json:"same_level"`
 	}
 	if err := json.Unmarshal(data, &pc); err != nil {
 		return append(res, extraResult{Name: "table/precedence-classes", Kind: "table", OK: false, Detail: err.Error()})
@@ -183,6 +184,34 @@ func tableChecksC09(P *Program, tier string) []extraResult {
 			viol = append(viol, "unknown operator "+a)
 		}
 	}
+	// rows of the table: the members of a same-level class carry one precedence number
+	var viol2 []string
+	rows := 0
+	for _, ci := range pc.SameLevel {
+		if ci < 0 || ci >= len(pc.Classes) {
+			viol2 = append(viol2, fmt.Sprintf("same_level names class %d, which does not exist", ci))
+			continue
+		}
+		first, firstName := -1, ""
+		for _, a := range pc.Classes[ci] {
+			if strings.HasSuffix(a, "_EXCLUDED") {
+				continue
+			}
+			pa, ok := prec[a]
+			if !ok {
+				continue // reported above as unknown
+			}
+			if firstName == "" {
+				first, firstName = pa, a
+				continue
+			}
+			rows++
+			if pa != first {
+				viol2 = append(viol2, fmt.Sprintf("%s (%d) and %s (%d) are one row of the precedence table", firstName, first, a, pa))
+			}
+		}
+	}
+	res = append(res, extraResult{Name: "table/precedence-rows", Kind: "table", OK: len(viol2) == 0 && rows > 0, Count: rows, Detail: fmt.Sprintf("%d operators compared with the first of their row; violations: %v", rows, viol2)})
 	res = append(res, extraResult{Name: "table/precedence-class-order", Kind: "table", OK: len(viol) == 0 && pairs > 0, Count: pairs, Detail: fmt.Sprintf("%d class-adjacent operator pairs compared; violations: %v", pairs, viol)})
 	for i := range res {
 		res[i].Ms = time.Since(t0).Milliseconds()
